@@ -906,3 +906,113 @@ func zeroValue(c *Col) []byte {
 	}
 	return emptyValue(c)
 }
+
+// ---- sessions generated by TLC (spec/Gen_Session.tla) ------------------------------------------
+
+// logFromModel builds exactly the log MC_Session's ModelLog describes for the unit kinds given: same units,
+// same statement shapes, hence the same packet sequence as the model's Served (tables a: 2 columns, b: 3 columns).
+func logFromModel(r *rand.Rand, cfg WireCfg, units []interface{}) *Log {
+	cfg.Gtid = false
+	l := &Log{Cfg: cfg}
+	gp := quickGP()
+	ta := &Table{ID: 101, DB: "d", Name: "a", Cols: []Col{colInt("long", false), colVarchar(20)}}
+	tb := &Table{ID: 102, DB: "d", Name: "b", Cols: []Col{colInt("tiny", true), colChar(10), colInt("longlong", false)}}
+	for _, t := range []*Table{ta, tb} {
+		for i := range t.Cols {
+			t.Cols[i].Name = "c" + itoa(i)
+			t.Cols[i].Nullable = true
+		}
+	}
+	ts := uint32(1600000000)
+	next := func() uint32 { ts += uint32(r.Intn(3)); return ts }
+	q := func(cat, sql string) *Ev { return &Ev{K: "query", TS: next(), Cat: cat, DB: "d", SQL: sql} }
+	f := &LogFile{Name: "mysql-bin.000001"}
+	l.Files = append(l.Files, f)
+	for _, ui := range units {
+		k := ui.(string)
+		u := &Unit{U: k}
+		switch k {
+		case "txxid":
+			u.Evs = []*Ev{q("begin", "BEGIN"), {K: "tablemap", TS: next(), Tbl: ta}, genRowsEv(r, "write", ta, gp, next()), {K: "xid", TS: next()}}
+		case "txcommit":
+			u.Evs = []*Ev{q("begin", "BEGIN"), q("commit", "COMMIT")}
+		case "txrollback":
+			u.Evs = []*Ev{q("begin", "BEGIN"), {K: "tablemap", TS: next(), Tbl: tb}, genRowsEv(r, "update", tb, gp, next()), q("rollback", "ROLLBACK")}
+		case "ddl":
+			u.Evs = []*Ev{q("ddl", "create table t1 (a int)")}
+		case "autorow":
+			u.Evs = []*Ev{{K: "tablemap", TS: next(), Tbl: tb}, genRowsEv(r, "write", tb, gp, ts)}
+		case "rotate":
+			u.Evs = []*Ev{{K: "rotate", TS: next()}}
+		case "ign":
+			u.Evs = []*Ev{{K: "heartbeat"}}
+		default:
+			panic("logFromModel: unit kind " + k)
+		}
+		f.Units = append(f.Units, u)
+		if k == "rotate" {
+			f = &LogFile{Name: "mysql-bin." + pad6(len(l.Files)+1)}
+			l.Files = append(l.Files, f)
+		}
+	}
+	l.Layout()
+	return l
+}
+
+var modelStopKinds = []string{"close", "short", "outofseq", "err", "eof"}
+
+// modeC04g replays every session TLC generated from MC_Session: the model's fault actions become the attempt plans
+// (fault kind and the number of packets consumed before it), all attempts run on ONE Streamer with hook tracing, and
+// the model's predictions travel in the scenario line for the replay (DRIFT.session).
+func modeC04g(e *Env) {
+	var cfgs []WireCfg
+	for _, c := range allCfgs() {
+		if !c.Gtid {
+			cfgs = append(cfgs, c)
+		}
+	}
+	id := 0
+	for i, s := range e.ReadScenarios() {
+		units, _ := s["units"].([]interface{})
+		hist, _ := s["attempts"].([]interface{})
+		if len(hist) == 0 {
+			continue
+		}
+		l := logFromModel(e.R, cfgs[i%len(cfgs)], units)
+		pacing := "burst"
+		if i%2 == 1 {
+			pacing = "lockstep"
+		}
+		var atts []AttemptPlan
+		for j, hi := range hist {
+			h := hi.(map[string]interface{})
+			at := int(h["at"].(float64))
+			a := defaultAttempt()
+			a.Pacing = pacing
+			a.HookTrace = true
+			switch h["fault"].(string) {
+			case "none":
+			case "handler":
+				a.HandlerErrAt = int(h["k"].(float64))
+			case "mapper-err":
+				a.MapperFault = "err:d." + h["tbl"].(string)
+			case "mapper-mismatch":
+				a.MapperFault = "mismatch:d." + h["tbl"].(string)
+			case "inject-invalid":
+				a.Inject = &Inject{Kind: "invalid", At: at, Raw: invalidPacket(e.R)}
+			case "inject-rand":
+				a.Inject = &Inject{Kind: pickS(e.R, "rand", "intvar", "rowsquery"), At: at}
+			case "stop":
+				a.Fault = &Fault{Kind: modelStopKinds[(i+j)%len(modelStopKinds)], At: at, Code: uint16(1000 + e.R.Intn(3000)), Msg: "verif master error"}
+			default:
+				panic("modeC04g: fault " + h["fault"].(string))
+			}
+			atts = append(atts, a)
+		}
+		id++
+		RunStreamScenario(e.Rec, &StreamScenario{ID: id, Fam: "c04g", Log: l, Start: l.Boundaries()[0], ServerID: 11,
+			Attempts: atts, Note: "tlc-session", Model: M{"attempts": hist, "expected": s["expected"]}})
+	}
+}
+
+func init() { modes["c04g"] = modeC04g }
